@@ -31,8 +31,10 @@ import (
 // name so far (the reporter may cache). "No excerpt" is additionally accepted
 // once a read of that file by that reporter has failed.
 
-var numbered = regexp.MustCompile(`^ *(\d+) \| (.*)$`)
-var caretLn = regexp.MustCompile(`^ * \| ([ \t]*)\^$`)
+// The gutter is parsed tolerantly (|, box-drawing bars or a colon; one or
+// several carets): the property is about what is shown, not about the frame.
+var numbered = regexp.MustCompile(`^ *(\d+) (?:\||│|┃|:) (.*)$`)
+var caretLn = regexp.MustCompile(`^ * (?:\||│|┃|:) ([ \t]*)\^+~*$`)
 
 type exLine struct {
 	n     int
